@@ -30,7 +30,7 @@ IupacAll == Sym
 QuickBounds    == <<-1, 0, 1, 2, 3, 4>>
 ThoroughBounds == <<-1, 0, 1, 2, 3, 4, 5, 7>>
 QuickConfigs    == {[alpha |-> {"a", "c"}, n |-> 6], [alpha |-> Bases, n |-> 3], [alpha |-> Sym, n |-> 1]}
-ThoroughConfigs == {[alpha |-> {"a", "c"}, n |-> 7], [alpha |-> Bases, n |-> 4], [alpha |-> Sym, n |-> 2]}
+ThoroughConfigs == {[alpha |-> {"a", "c"}, n |-> 8], [alpha |-> Bases, n |-> 4], [alpha |-> Sym, n |-> 2]}
 BandedQuickConfigs    == {[alpha |-> {"a", "c"}, n |-> 5], [alpha |-> {"a", "g", "r"}, n |-> 3]}
 BandedThoroughConfigs == {[alpha |-> {"a", "c"}, n |-> 6], [alpha |-> {"a", "c", "g", "r"}, n |-> 3]}
 
